@@ -33,13 +33,13 @@ CHECKS: dict[str, dict] = {
     ),
     "C04": dict(
         cat="model_checking", ref="DESIGN.md §3 C04, §2 E1/E3/E2", engine="E1 world + E3 vblock + E2 vloop",
-        technique="explicit-state exploration of the real send loops on a fake socket: every answer sequence of send()/sendmsg() (all partial sizes, EAGAIN, EINTR, reset) and every unblock delay, states merged on (offered buffers, wire, clock, fault budget), livelock = state repeated without an environment choice; asyncio adapter by deviation-bounded schedule enumeration",
-        text="For all chunk sequences up to the bound (empty chunks everywhere) and all socket answer sequences (no deviation bound on the blocking paths) the bytes on the wire equal the concatenation on success and a prefix of it on TimeoutError/OSError, the call never spins or blocks forever and never exceeds its budget; five blocking send paths plus the asyncio adapter.",
+        technique="explicit-state exploration of the real send loops on a fake socket: every answer sequence of send()/sendmsg() (all partial sizes, EAGAIN, EINTR, reset) and every unblock delay, states merged on (offered buffers, wire, clock, fault budget), livelock = state repeated without an environment choice; asyncio adapter by deviation-bounded schedule enumeration; blocking TLS socket (props/c04_tls.py): deviation-bounded enumeration of the peer's read behaviour at every wait for writability over a real socketpair with the minimum send buffer",
+        text="For all chunk sequences up to the bound (empty chunks everywhere) and all socket answer sequences (no deviation bound on the blocking paths) the bytes on the wire equal the concatenation on success and a prefix of it on TimeoutError/OSError, the call never spins or blocks forever and never exceeds its budget; five blocking send paths plus the asyncio adapter. Blocking TLS socket: one packet of 40000-300000 bytes reaches the stdlib-ssl peer exactly once or TimeoutError is raised within the budget with a prefix sent.",
     ),
     "C10": dict(
         cat="exploration", ref="DESIGN.md §3 C10, §2 E2", engine="E2 vloop + mc/envsched.py",
-        technique="stateless schedule enumeration on the real asyncio loop: every peer write and the cancel request placed at every loop-iteration boundary (same-iteration races as bounded deviations, explicit coincidence with the scope deadline); blocking endpoint by complete enumeration of arrival instants",
-        text="For every receive layer (transport recv/recv_into, both endpoint receive paths, blocking endpoint) and every canceller (task.cancel, canceller task, move_on_after, timeout) all relative orders of {read callback, cancel request, task wake-up} within the stated deviation bound: the data returned by the receives that completed is exactly the peer's stream.",
+        technique="stateless schedule enumeration on the real asyncio loop: every peer write and the cancel request placed at every loop-iteration boundary (same-iteration races as bounded deviations, explicit coincidence with the scope deadline); blocking endpoint by complete enumeration of arrival instants; TLS over the real socket adapter (props/c10_tls.py): cancel offered at every select() while receive #1 is pending, ciphertext delivered whole / fragmented / held",
+        text="For every receive layer (transport recv/recv_into, both endpoint receive paths, blocking endpoint) and every canceller (task.cancel, canceller task, move_on_after, timeout) all relative orders of {read callback, cancel request, task wake-up} within the stated deviation bound: the data returned by the receives that completed is exactly the peer's stream. Same for AsyncTLSStreamTransport.recv/recv_into over the socket adapter against a stdlib-ssl peer (lost ciphertext would surface as a record error, a hang or missing plaintext).",
     ),
     "C20": dict(
         cat="model_checking", ref="DESIGN.md §3 C20", engine="E2 vloop + BFS over the real WriteFlowControl",
@@ -64,22 +64,22 @@ CHECKS: dict[str, dict] = {
     "C05": dict(
         cat="model_checking", ref="DESIGN.md §3 C05", engine="zoo + E1/E2/E3",
         technique="exhaustive enumeration of datagram sequences (valid, truncated at every offset, extra byte, concatenated, empty) over the real DatagramProtocol and four real endpoint/client implementations on fake datagram sockets, each datagram compared with a fresh-object reference decode",
-        text="Every serializer importable here (plus pickle with a restricted unpickler): packets round-trip through one datagram; for all datagram sequences up to the bound each datagram yields exactly one result that depends on that datagram alone; k sends produce exactly k datagrams equal to make_datagram(p); nothing is carried over between receives, on blocking and asynchronous endpoints and UDP clients.",
+        text="Every serializer importable here (plus pickle with a restricted unpickler): packets round-trip through one datagram; for all datagram sequences up to the bound each datagram yields exactly one result that depends on that datagram alone; k sends produce exactly k datagrams equal to make_datagram(p); nothing is carried over between receives, on blocking and asynchronous endpoints and UDP clients. Datagrams of 1000..65527 bytes are received and sent intact through the four implementations (size band).",
     ),
     "C12": dict(
         cat="exploration", ref="DESIGN.md §3 C12", engine="E2 vloop + mc/envsched.py + BFS over the real FairLock + E4 vthreads (props/c12_threads.py)",
         technique="stateless schedule enumeration of N concurrent senders on the real asyncio client over a tiny fake pipe (peer drain steps placed at loop-iteration boundaries, deviation-bounded) plus explicit-state BFS to a fixpoint over the real FairLock, plus preemption-bounded scheduling of two real threads on the blocking TCP/UDP clients (baton scheduler, partial writes)",
-        text="Every explored interleaving of 2-3 concurrent send_packet calls (three chunks per packet, transport suspending at arbitrary points) leaves a wire that parses into exactly the multiset of sent packets, each contiguous, per-sender order kept, every call succeeding; on the raw endpoint the loser gets BusyResourceError and the wire stays intact; every reachable FairLock state satisfies mutual exclusion, FIFO hand-off and no lost wake-up.",
+        text="Every explored interleaving of 2-3 concurrent send_packet calls (three chunks per packet, transport suspending at arbitrary points) leaves a wire that parses into exactly the multiset of sent packets, each contiguous, per-sender order kept, every call succeeding; on the raw endpoint the loser gets BusyResourceError and the wire stays intact; every reachable FairLock state satisfies mutual exclusion, FIFO hand-off and no lost wake-up. The server-side client object of a running AsyncTCPNetworkServer is driven the same way (send_packet from tasks other than the handler's).",
     ),
     "C14": dict(
         cat="fault_enumeration", ref="DESIGN.md §3 C14", engine="E2 vloop + mc/envsched.py + mc/memtransport.py + E7 tlsrig (props/c14_tls.py)",
         technique="crash-point enumeration on the real asyncio loop: task.cancel() of the closing task and a second aclose() injected at every loop-iteration boundary of every close path, crossed with leaf-transport faults (raise / slow / block forever) and peer behaviours (reads later / never); TLS: aclose with a peer that answers close_notify or stays silent (shutdown timeout), wrap() with the handshake cut at several offsets or stalled (handshake timeout)",
-        text="For every close path and every injected cancellation point and leaf fault: when the closing task has finished (returned, raised, cancelled) every leaf transport / socket is closed, is_closing() is true, a concurrent second close returns no later than 3 iterations after the first, a later close returns at once; both halves of a stapled pair are closed even if closing the first fails.",
+        text="For every close path and every injected cancellation point and leaf fault: when the closing task has finished (returned, raised, cancelled) every leaf transport / socket is closed, is_closing() is true, a concurrent second close returns no later than 3 iterations after the first, a later close returns at once; both halves of a stapled pair are closed even if closing the first fails. Also the server-side client object's aclose() and the tear-down of its task by server.shutdown(), clean and with unsent data.",
     ),
     "C08": dict(
         cat="exploration", ref="DESIGN.md §3 C08, §2 E7", engine="E7 tlsrig + E2 vloop (+ E3 for the blocking transport)",
-        technique="stateless schedule enumeration of the real TLS transports against an independent stdlib SSLObject peer through a byte-level ciphertext relay: every write-script pair, deviation-bounded partial deliveries at every relay step, uniform fragmentations, both directions concurrently",
-        text="Plaintext read by each side equals the concatenation of the other side's writes for every explored fragmentation/delay pattern with both directions active; handshake and transfers finish; a marker placed in every plaintext write never reaches the wrapped transport. Complete within the stated deviation bounds and uniform fragmentations (the full product is exponential and is not claimed).",
+        technique="stateless schedule enumeration of the real TLS transports against an independent stdlib SSLObject peer through a byte-level ciphertext relay: every write-script pair, deviation-bounded partial deliveries at every relay step, uniform fragmentations, both directions concurrently; full duplex under back-pressure (props/c08_duplex.py): writers blocked in the leaf's send_all until the reader drained the peer, task start orders and gaps enumerated",
+        text="Plaintext read by each side equals the concatenation of the other side's writes for every explored fragmentation/delay pattern with both directions active; handshake and transfers finish; a marker placed in every plaintext write never reaches the wrapped transport. Complete within the stated deviation bounds and uniform fragmentations (the full product is exponential and is not claimed). With the library's writer(s) blocked by a peer that reads only after its own write went through, the reader still drains the peer and every task finishes.",
     ),
     "C09": dict(
         cat="fault_enumeration", ref="DESIGN.md §3 C09, §2 E7", engine="E7 tlsrig",
@@ -155,8 +155,8 @@ def main() -> None:
             {"name": "E0 core", "path": "mc/core.py", "serves_properties": props, "kind_free_text": "choice-point explorer (deviation-bounded DFS by re-execution), job runner, evidence/replay/known-findings plumbing"},
             {"name": "E1 world", "path": "mc/world.py", "serves_properties": ["C03", "C04", "C05", "C10", "C11", "C12", "C14", "C15", "C16", "C17", "C18", "C19", "C20"], "kind_free_text": "virtual clock, pipes, FakeSocket (socket.socket subclass, in-memory I/O whose answers the explorer chooses), VSelector"},
             {"name": "E2 vloop", "path": "mc/vloop.py", "serves_properties": ["C04", "C10", "C12", "C13", "C14", "C15", "C16", "C17", "C18", "C19", "C20"], "kind_free_text": "the stock asyncio SelectorEventLoop driven by the virtual world"},
-            {"name": "E7 tlsrig", "path": "mc/tlsrig.py", "serves_properties": ["C08", "C09"], "kind_free_text": "Ed25519 test certificate, independent stdlib SSLObject peer, byte-level ciphertext relay (fragment / cut / hold), in-memory leaf transport, blocking variant over a socketpair"},
-            {"name": "srvrig", "path": "mc/srvrig.py", "serves_properties": ["C15", "C16", "C17"], "kind_free_text": "real EasyNetwork servers on fake listener / datagram sockets, scripted peers placed at loop-iteration boundaries, handler recorder"},
+            {"name": "E7 tlsrig", "path": "mc/tlsrig.py", "serves_properties": ["C04", "C08", "C09", "C10", "C11", "C12", "C14"], "kind_free_text": "Ed25519 test certificate, independent stdlib SSLObject peer, byte-level ciphertext relay (fragment / cut / hold), in-memory leaf transport, blocking variant over a socketpair"},
+            {"name": "srvrig", "path": "mc/srvrig.py", "serves_properties": ["C12", "C14", "C15", "C16", "C17"], "kind_free_text": "real EasyNetwork servers on fake listener / datagram sockets, scripted peers placed at loop-iteration boundaries, handler recorder"},
             {"name": "E6 progmc", "path": "mc/progmc.py", "serves_properties": ["C13"], "kind_free_text": "program enumerator for the cancel-scope grammar, reference interpreter, real interpreter on the virtual loop, trace diff"},
             {"name": "E4 vthreads", "path": "mc/vthreads.py", "serves_properties": ["C11", "C12", "C18"], "kind_free_text": "baton-passing scheduler of real threads: controlled Lock/RLock/Event/Condition/Thread swapped into the library's modules, cooperating event loop, preemption-bounded choices, virtual deadlines, deadlock detection"},
             {"name": "E5 chunkmc", "path": "mc/chunkmc.py", "serves_properties": ["C01", "C02", "C03", "C05", "C06", "C07"], "kind_free_text": "explicit-state search over the real stream consumers with canonical heap fingerprints"},
